@@ -87,7 +87,7 @@ type popOps struct {
 }
 
 func runPopulationCases(t *testing.T, r *rep.Reporter, env instrEnv) {
-	n := r.N(30, 300)
+	n := r.N(30, 450)
 	for i := 0; i < n; i++ {
 		idx := basePopulation + i
 		r.Run(idx, fmt.Sprintf("population-%d", i), func(c *rep.Case) {
